@@ -77,6 +77,9 @@ func (s *pStmt) SQL(ind string) string {
 	switch s.k {
 	case "var":
 		return ind + "VAR " + s.name + " := " + s.e.SQL() + ";\n"
+	case "var2":
+		// one statement declaring two variables; the second initial value may refer to the first variable
+		return ind + "VAR " + s.name + " := " + s.e.SQL() + ", " + s.params[0] + " := " + s.cond.SQL() + ";\n"
 	case "assign":
 		return ind + s.name + " := " + s.e.SQL() + ";\n"
 	case "print":
@@ -292,6 +295,21 @@ func (in *pInterp) exec(env []*pBlock, ss []*pStmt, inLoop bool) (int, int, *pEr
 				return flNone, 0, &pErr{"variable " + s.name + " is redeclared"}
 			}
 			cur.vars[s.name] = &v
+		case "var2":
+			for _, d := range []struct {
+				n string
+				e *pExpr
+			}{{s.name, s.e}, {s.params[0], s.cond}} {
+				v, err := in.eval(env, d.e)
+				if err != nil {
+					return flNone, 0, err
+				}
+				if _, dup := cur.vars[d.n]; dup {
+					return flNone, 0, &pErr{"variable " + d.n + " is redeclared"}
+				}
+				vv := v
+				cur.vars[d.n] = &vv
+			}
 		case "assign":
 			v, err := in.eval(env, s.e)
 			if err != nil {
@@ -511,6 +529,23 @@ func (g *pGen) block(vis []string, declaredHere map[string]bool, depth int, inLo
 			for _, v := range vis {
 				if v == name {
 					g.features["shadow"] = true
+				}
+			}
+			if g.r.P(30) {
+				// two variables in one statement, the second initialised from the first (which may shadow an outer one)
+				var name2 string
+				for _, cand := range []string{"@a", "@b", "@c", "@l1", "@l2"} {
+					if cand != name && !declaredHere[cand] && (!inFunc || cand == "@l1" || cand == "@l2" || cand == "@a") && (inFunc || !strings.HasPrefix(cand, "@l")) {
+						name2 = cand
+					}
+				}
+				if name2 != "" {
+					e2 := &pExpr{k: "bin", op: []string{"+", "*", "-"}[g.r.Intn(3)], a: &pExpr{k: "var", name: name}, b: &pExpr{k: "lit", n: g.r.Range(1, 4)}}
+					out = append(out, &pStmt{k: "var2", name: name, e: g.expr(vis, 2, false), params: []string{name2}, cond: e2})
+					declaredHere[name], declaredHere[name2] = true, true
+					vis = append(vis, name, name2)
+					g.features["var2"] = true
+					continue
 				}
 			}
 			out = append(out, &pStmt{k: "var", name: name, e: g.expr(vis, 2, !inFunc)})
@@ -769,6 +804,9 @@ func c15Case(w *core.Worker, i int) {
 	}
 	if g.features["curloop"] {
 		w.Count("programs_with_a_cursor_loop", 1)
+	}
+	if g.features["var2"] {
+		w.Count("programs_with_a_two_variable_declaration", 1)
 	}
 	w.Case(core.Digest(text), len(want) >= 4 && (g.features["shadow"] || g.features["call"]))
 }
